@@ -1,5 +1,6 @@
 """C14 Drop-in directory watcher: race-free, never fatal, converges to files present."""
 import json
+import re
 import random
 
 from vlib import core, threads, world as W
@@ -75,8 +76,14 @@ def gen(rng, cid, nops):
         k, c = new(rng.choice(["valid", "valid", "valid2", "badjson"]), f)
         initial[f] = content(k, c)
         state[f] = (k, c)
+    missing = rng.random() < 0.12
+    if missing:
+        # the drop-in directory does not exist when the service starts and is created later
+        initial, state = {}, {}
     init_state = dict(state)
     ops = []
+    if missing:
+        ops += [{"op": "wait_ticks", "n": rng.randint(0, 3)}, {"op": "mkdir"}]
     recreated = invalid = 0
     for _ in range(nops):
         r = rng.random()
@@ -106,7 +113,7 @@ def gen(rng, cid, nops):
         elif r < 0.75:
             # sometimes a burst: the directory is removed again while the service is still re-arming its watch
             for _ in range(rng.choice([1, 1, 2, 3, 4])):
-                ops.append({"op": "rmdir_mkdir", "gap_us": rng.choice([0, 0, 0, 300, 2000, 20000])})
+                ops.append({"op": rng.choice(["rmdir_mkdir", "rmdir_mkdir", "mvdir_mkdir"]), "gap_us": rng.choice([0, 0, 0, 300, 2000, 20000])})
             state.clear()
             recreated += 1
         elif r < 0.79:
@@ -125,8 +132,8 @@ def gen(rng, cid, nops):
         k, c = new("valid", f)
         ops.append({"op": "write", "file": f, "text": content(k, c)})
         state[f] = (k, c)
-    scn = {"id": cid, "seed": rng.randint(1, 10**6), "base": BASE, "initial": initial, "ops": ops, "yield_us": rng.choice([0, 100, 400]), "mutex_yield_ppm": rng.choice([0, 20000, 200000])}
-    meta = {"final": {f: list(v) for f, v in state.items()}, "initial": {f: list(v) for f, v in init_state.items()}, "recreated": recreated, "invalid": invalid}
+    scn = {"id": cid, "seed": rng.randint(1, 10**6), "base": BASE, "initial": initial, "ops": ops, "missing_at_start": missing, "trailing_slash": rng.random() < 0.2, "yield_us": rng.choice([0, 100, 400]), "mutex_yield_ppm": rng.choice([0, 20000, 200000])}
+    meta = {"final": {f: list(v) for f, v in state.items()}, "initial": {f: list(v) for f, v in init_state.items()}, "recreated": recreated, "invalid": invalid, "missing_at_start": missing}
     return scn, meta
 
 
@@ -174,6 +181,21 @@ def judge(case, results):
             v.count("inconclusive_no_quiescence")
             continue
         want = sorted(c for f, (k, c) in meta["final"].items() if k in VALID and not f.startswith("."))
+        # the directory as it really is at the end must be the one the generator planned (a file operation of the driver that
+        # failed would otherwise be blamed on oomd)
+        texts = {}
+        for o in scn["ops"]:
+            if o.get("text") is not None:
+                m_ = re.search(r'"id": "([^"]+#\d+)"', o["text"])
+                texts[o["text"]] = m_.group(1) if m_ else None
+        for f, t in scn["initial"].items():
+            m_ = re.search(r'"id": "([^"]+#\d+)"', t)
+            texts[t] = m_.group(1) if m_ else None
+        really = sorted(f for f in out.get("present", {}) if not f.startswith("."))
+        planned = sorted(f for f in meta["final"] if not f.startswith("."))
+        if really != planned:
+            v.count("inconclusive_directory_not_as_planned")
+            continue
         # one run() per valid file and tick; two files may hold the very same bytes (a rename followed by a rewrite of the old
         # name with its earlier content), so this is a multiset comparison
         got = sorted(active_ids(out["final_ticks"][-1]))
@@ -186,10 +208,9 @@ def judge(case, results):
                 f = stale[0].split("#")[0]
                 cur = meta["final"].get(f)
                 disc = "file-deleted" if cur is None else "latest-content-" + cur[0]
-            import re
             loglines = [l[-160:] for l in r["err"].split("\n") if re.search(r"inotify|epoll|not a directory|drop in config=|Could not|Failed", l)]
-            v.bad(rule, disc, "scenario %s: after quiescence active contents %s; valid files present %s (final state %s); last ops %s\n  last oomd log lines:\n    %s" % (
-                scn["id"], got, want, meta["final"], [(o["op"], o.get("file")) for o in scn["ops"][-8:]], "\n    ".join(loglines[-30:])))
+            v.bad(rule, disc, "scenario %s: after quiescence active contents %s; valid files present %s (final state %s); last ops %s; files really present %s\n  last oomd log lines:\n    %s" % (
+                scn["id"], got, want, meta["final"], [(o["op"], o.get("file")) for o in scn["ops"][-8:]], really, "\n    ".join(loglines[-60:])))
         else:
             v.count("converged_runs")
         if len(want) >= 3 and (meta["recreated"] or meta["invalid"] >= 5):
